@@ -124,10 +124,6 @@ class MessageData(object):
                                     else:
                                         # Unrecognized data shape.
                                         pass
-                                elif len(value.shape) > 2 and value.shape[0] == len(is_nan):
-                                    # Higher-dimensional data (e.g., an Nx3x3 stack of covariance matrices): time is
-                                    # the first dimension.
-                                    self.__dict__[key] = value[keep_idx, ...]
                                 else:
                                     # Unrecognized data shape.
                                     pass
@@ -356,6 +352,11 @@ class DataLoader(object):
             'return_message_index': return_message_index,
             'remove_nan_times': remove_nan_times,
             'source_ids': source_ids,
+            # The cached objects are converted/aligned in place, so the arguments controlling that are part of the key.
+            'return_numpy': return_numpy,
+            'keep_messages': keep_messages,
+            'time_align': time_align,
+            'aligned_message_types': aligned_message_types,
         }
 
         # If the user requested output in the order that it was logged, we need to ignore cached data since that data
